@@ -12,6 +12,7 @@ import Astm.Model.Heap
 import Astm.Model.Select
 import Astm.Generated.Regex
 import Astm.Model.Wrapper
+import Astm.Model.Vendor
 
 open Astm Astm.Wire
 
@@ -178,6 +179,19 @@ def handle (toks : List String) : String :=
       "ok " ++ " ; ".intercalate (outs.map showTOut) ++ " | " ++ ",".intercalate live
     | _, _ => "bad-arg"
   | ["default-timeout"] => s!"ok {TIMEOUT}"
+  | "vrecv" :: fmt :: now :: evs => match ofHex now, evs.mapM parseEv with
+    | some nowB, some es =>
+      let fmt := if fmt == "@default" then DEFAULT_FORMAT else fmt
+      let L := lowOf fmt (Astm.Vendor.vendorOf nowB)
+      let outs := runOuts L Conn.init es
+      let fin := runState L Conn.init es
+      "ok " ++ " ; ".intercalate (outs.map showOut) ++ " | " ++ showConn fin
+    | _, _ => "bad-arg"
+  | ["vcan", h] => match ofHex h with
+    | some b => match Astm.Vendor.vendorOf [] b with
+      | some _ => "ok 1"
+      | none => "ok 0"
+    | none => "bad-arg"
   | "tojson" :: now :: hs => match parseCps (if now == "-" then "" else now), hs.mapM ofHex with
     | some nowS, some ms => match Astm.Wrapper.toJson nowS ms with
       | .ok doc =>
